@@ -40,6 +40,18 @@ def is_int_ty(t):
     return t in INT_TYPES
 
 
+_WIDTH = {"u8": 8, "i8": 8, "u16": 16, "i16": 16, "u32": 32, "i32": 32, "u64": 64, "i64": 64, "usize": 64, "isize": 64, "u128": 128, "i128": 128}
+
+
+def narrowing_casts(t):
+    """the integer casts inside a term that can lose high bits (`x as u16` for a wider x)"""
+    out = []
+    for s in subterms(t):
+        if isinstance(s, tuple) and s and s[0] == "cast" and len(s) > 3 and s[1] in _WIDTH and s[3] in _WIDTH and _WIDTH[s[1]] < _WIDTH[s[3]]:
+            out.append(s)
+    return out
+
+
 # callees whose result is a function of the arguments only (no hidden state, no effect)
 PURE_SUFFIX = (
     "::len", "::is_empty", "::clone", "::cloned", "::copied", "::as_ref", "::as_slice", "::as_raw_slice",
@@ -1586,8 +1598,12 @@ def _is_full_range(t):
     return False
 
 
+# codec configuration setters: they change how a decoder will behave, they do not touch the stream it wraps (external model, DESIGN §3.6)
+CODEC_CONFIG_SUFFIX = ("::multiple_members", "::single_frame", "::window_log_max", "::include_magicbytes")
+
+
 def _is_value_only(fn):
-    return fn.endswith(PURE_SUFFIX)
+    return fn.endswith(PURE_SUFFIX) or (fn.endswith(CODEC_CONFIG_SUFFIX) and fn.startswith(("async_compression::", "zstd::", "flate2::", "brotli")))
 
 
 def _streamish_ty(t):
